@@ -67,6 +67,19 @@ CHECKS["C05"] = dict(
     technique="static analysis: symbolic execution of the handlers' HIR into effect templates + event-level comparison with an abstract machine table",
     ref="DESIGN.md §3 C05")
 
+CHECKS["C03"] = dict(
+    category="other",
+    text="Inverse-ness decided as agreement of two syntax-directed templates: writer (Program::serialize ↓) and reader (Program::from_bytes ↓) are executed symbolically down to write_all/read_exact; for the 7 constant kinds, the 17 opcodes and the program frame the extracted layouts coincide token by token (tag, field order and destination, width, endianness, counts, element kinds); tag tables injective and mutually inverse; primitive pairs inverse by construction; narrowing casts range-asserted; loader appends method code in pool order while the writer emits each method's own range forwards; labels derived by one shared function. Necessary and, with the primitive rules, essentially sufficient at the byte level; 'same behaviour when executed' follows only together with C05.",
+    note=TB + "; to_le_bytes/from_le_bytes mutually inverse; symbolic executor + std models",
+    technique="static analysis: symbolic execution of serializer and loader into layout templates + token-wise agreement, tag-table inversion, cast/assert census",
+    ref="DESIGN.md §3 C03")
+CHECKS["C04"] = dict(
+    category="other",
+    text="Writer AND reader layouts (extracted by symbolic execution down to write_all/read_exact, per constant kind, per opcode and for the program frame) are each compared with S3, an independent grammar written from the property statement and the Feeny opcode numbering, and with the numbers in the doc comments — so a symmetric change of width, endianness, tag, field order or 'length in chars' is caught; nothing is written after the entry index and the compile action writes nothing else. Intended sound for 'every emitted file is exactly …' and for the reader accepting exactly that grammar.",
+    note=TB + "; S3 grammar (DESIGN A.3)",
+    technique="static analysis: symbolic execution into layout templates + comparison with an independent layout grammar",
+    ref="DESIGN.md §3 C04")
+
 PENDING_REASON = "check under construction in this round (static rules designed in DESIGN.md §3, not yet implemented)"
 
 
